@@ -10,8 +10,8 @@ TECHNIQUE = 'exhaustive enumeration of typed generated programs under all rule/c
 ASSUMPTIONS = ['programs are in fact form over numeric base facts, so every variable has a ground type known to the model by construction (mc/typemodel.py)',
                'a corruption forces a variable or column of known ground type to a second ground type (Num vs Str vs Bool vs list vs record)']
 
-FACTS = {'A': [(1, 2), (2, 1), (2, 2)], 'B': [(1,), (2,)]}
-BASE_SIGS = {'A': {'col0': 'Num', 'col1': 'Num'}, 'B': {'col0': 'Num'}}
+FACTS = {'A': [(1, 2), (2, 1), (2, 2)], 'B': [(1,), (2,)], 'S': [('a',), ('b',)]}
+BASE_SIGS = {'A': {'col0': 'Num', 'col1': 'Num'}, 'B': {'col0': 'Num'}, 'S': {'col0': 'Str'}}
 _CASES = None
 
 
@@ -95,7 +95,7 @@ def plan(ctx):
 
 
 def typed_program(stmts):
-  return Program(semcheck.facts_for(FACTS, 'AB') + list(stmts), engine='sqlite', type_checking=True)
+  return Program(semcheck.facts_for(FACTS, 'ABS') + list(stmts), engine='sqlite', type_checking=True)
 
 
 def var_types(rule, typer):
